@@ -28,6 +28,8 @@ enum Op {
     Limit(usize),
     Markers(&'static str, &'static str),
     Search(String),
+    /// A record with the id of the first record added so far (ids need not be distinct).
+    Readd(String, usize),
     /// Activity on ANOTHER store living on the same thread (other language, other records): an add
     /// and a search there. Not part of the observed store's content, limit or markers.
     Other(String),
@@ -37,6 +39,7 @@ impl Op {
     fn show(&self) -> String {
         match self {
             Op::Add(t, r) => format!("add({:?},{})", t, r),
+            Op::Readd(t, r) => format!("add(again under the first record's id: {:?},{})", t, r),
             Op::Clear => "clear".into(),
             Op::Limit(n) => format!("limit({})", n),
             Op::Markers(a, b) => format!("markers({:?},{:?})", a, b),
@@ -96,6 +99,17 @@ fn run_history(cx: &mut Cx, lang: &'static str, ops: &[Op], sample: bool) -> boo
                     mutated_after_search = true;
                 }
                 last_mut = "add";
+            }
+            Op::Readd(t, r) => {
+                let id = m.recs.first().map(|x| x.0).unwrap_or(m.next_id);
+                let rec = (id, t.clone(), *r);
+                st.add(&rec);
+                m.recs.push(rec);
+                if searched {
+                    mutated_after_search = true;
+                }
+                last_mut = "add";
+                cx.count("adds re-using the id of an earlier record");
             }
             Op::Clear => {
                 st.store.clear();
@@ -161,6 +175,74 @@ fn run_history(cx: &mut Cx, lang: &'static str, ops: &[Op], sample: bool) -> boo
         }
     }
     true
+}
+
+/// The same kind of history driven through the top-level registry API (what the JS wrapper calls), with a
+/// neighbour id of another language that receives every query text first. Compared with a fresh `Store`.
+fn run_history_registry(cx: &mut Cx, lang: &'static str, ops: &[Op]) {
+    let base = (cx.idx as usize + 900_000) * 4;
+    let (id, other) = (base, base + 1);
+    let olang = LANGS[((cx.idx + 3) % NL) as usize];
+    create_store(id, take_lang(lang));
+    create_store(other, take_lang(olang));
+    add_record(other, 1, "universities running für ёлка metal mailbox", 1);
+    let mut m = Model { lang, recs: vec![], limit: DEFAULT_LIMIT, markers: ("[", "]"), next_id: 1 };
+    let mut shown: Vec<String> = vec![format!("create({}, {}) create({}, {})", id, lang, other, olang)];
+    let mut searches = 0;
+    for op in ops {
+        shown.push(op.show());
+        cx.ctx(format!("C10 registry lang={} history={:?}", lang, shown));
+        match op {
+            Op::Add(t, r) => {
+                add_record(id, m.next_id, t, *r);
+                m.recs.push((m.next_id, t.clone(), *r));
+                m.next_id += 1;
+            }
+            Op::Readd(t, r) => {
+                let rid = m.recs.first().map(|x| x.0).unwrap_or(m.next_id);
+                add_record(id, rid, t, *r);
+                m.recs.push((rid, t.clone(), *r));
+            }
+            Op::Clear => {
+                // the registry has no clear: destroy + create is what the wrapper does
+                destroy_store(id);
+                create_store(id, take_lang(lang));
+                set_limit(id, m.limit);
+                highlight_with(id, m.markers);
+                m.recs.clear();
+            }
+            Op::Limit(n) => {
+                set_limit(id, *n);
+                m.limit = *n;
+            }
+            Op::Markers(a, b) => {
+                highlight_with(id, (a, b));
+                m.markers = (a, b);
+            }
+            Op::Other(q) => {
+                add_record(other, 100 + shown.len(), q, 1);
+                run_search(other, q);
+            }
+            Op::Search(q) => {
+                run_search(other, q);
+                run_search(id, q);
+                let got: Hits = using_results(id, |b| b.iter().map(|r| (r.id, r.title.clone())).collect());
+                let exp = St::build(m.lang, &m.recs, m.limit, m.markers).search(q);
+                cx.eval();
+                searches += 1;
+                if got != exp {
+                    cx.fail("stale-answer", json!({"lang": lang, "through": "top-level registry API; a neighbour id of another language receives each query text first", "neighbour_lang": olang, "history": shown, "got": got, "fresh_store_returns": exp}));
+                    break;
+                }
+            }
+        }
+    }
+    destroy_store(id);
+    destroy_store(other);
+    cx.count_n("registry-driven searches compared with a fresh store", searches);
+    if searches > 0 {
+        cx.key(hstr(&format!("registry{}{:?}", lang, shown)));
+    }
 }
 
 /// C10 soak: more than 2^16 searches on one store; compared with a freshly built store around every
@@ -256,6 +338,10 @@ fn random_op_inner(rng: &mut Rng, lang: &str, allow_clear: bool) -> Op {
         // the same title again with another rating (duplicates, and re-adds after a clear)
         return Op::Add("metal mailbox".to_string(), rng.below(9));
     }
+    if rng.chance(1, 16) {
+        let t = if rng.chance(1, 2) { "metal mailbox".to_string() } else { format!("{} {}", rng.pick(&["metal", "mailbox", "yellow", "shirt"]), gen::any_word(rng, lang)) };
+        return Op::Readd(t, rng.below(9));
+    }
     let words = ["metal", "mailbox", "yellow", "shirt", "t", "wi", "fi", "the", "für", "ёлка", "a", "t-shirt", "straße", "microbiologically-engineered", "caramel", "melon"];
     let pickw = |rng: &mut Rng| -> String { if rng.chance(1, 3) { gen::any_word(rng, lang) } else { rng.pick(&words).to_string() } };
     match rng.below(if allow_clear { 12 } else { 11 }) {
@@ -345,9 +431,18 @@ impl History {
         for _ in 0..cx.rng.below(8) {
             let t = c01_title(&mut cx.rng, lang, &corpus);
             let r = cx.rng.below(1usize << 31);
-            shown.push(format!("add(id {},{:?},{})", mk_id(next_id), t, r));
+            // record ids need not be distinct: one add in eight re-uses the id of an earlier record (same or new title)
+            let reuse = next_id > 1 && cx.rng.chance(1, 8);
+            let (k, t) = if reuse {
+                cx.count("adds re-using the id of an earlier record");
+                let k = cx.rng.range(1, next_id - 1);
+                (k, if cx.rng.chance(1, 2) { titles[k - 1].clone() } else { t })
+            } else {
+                (next_id, t)
+            };
+            shown.push(format!("add(id {},{:?},{})", mk_id(k), t, r));
             cx.ctx(format!("C01 lang={} limit={} markers=({:?},{:?}) history={:?}", lang, st.store.limit, ml, mr, shown));
-            st.add(&(mk_id(next_id), t.clone(), r));
+            st.add(&(mk_id(k), t.clone(), r));
             titles.push(t);
             next_id += 1;
         }
@@ -358,9 +453,17 @@ impl History {
                 0 | 1 => {
                     let t = c01_title(&mut cx.rng, lang, &corpus);
                     let r = cx.rng.below(1usize << 31);
-                    shown.push(format!("add(id {},{:?},{})", mk_id(next_id), t, r));
+                    let reuse = next_id > 1 && cx.rng.chance(1, 6);
+                    let (k, t) = if reuse {
+                        cx.count("adds re-using the id of an earlier record");
+                        let k = cx.rng.range(1, next_id - 1);
+                        (k, if cx.rng.chance(1, 2) { titles[k - 1].clone() } else { t })
+                    } else {
+                        (next_id, t)
+                    };
+                    shown.push(format!("add(id {},{:?},{})", mk_id(k), t, r));
                     cx.ctx(format!("C01 lang={} history={:?}", lang, shown));
-                    st.add(&(mk_id(next_id), t.clone(), r));
+                    st.add(&(mk_id(k), t.clone(), r));
                     titles.push(t);
                     next_id += 1;
                 }
@@ -566,9 +669,10 @@ impl History {
         let lang: &'static str = if via_bridge { "none" } else { lang };
         let mut model: BTreeMap<usize, (St, Hits)> = BTreeMap::new();
         let mut hist: Vec<String> = vec![];
-        let words = ["metal", "mailbox", "shirt", "t", "wi", "fi", "the", "für", "ёлка", "t-shirt", "straße"];
+        let words = ["metal", "mailbox", "shirt", "t", "wi", "fi", "the", "für", "ёлка", "t-shirt", "straße", "university", "universities", "running", "élan"];
         let nops = cx.rng.range(5, 30);
         let mut cross = false;
+        let mut last_q: Option<(usize, String)> = None;
         for _ in 0..nops {
             let id = *cx.rng.pick(&idset);
             let exists = model.contains_key(&id);
@@ -578,12 +682,20 @@ impl History {
                     if !exists {
                         hist.push(format!("create({})", id));
                         cx.ctx(format!("C20 lang={} history={:?}", lang, hist));
+                        // every id has its own language: half of the time the case's, else any (the bridge has one)
+                        let idlang: &'static str = if via_bridge || cx.rng.chance(1, 2) { lang } else { *cx.rng.pick(&LANGS) };
+                        if idlang != lang {
+                            cx.count("stores created with another language than their neighbours");
+                        }
+                        if let Some(h) = hist.last_mut() {
+                            *h = format!("create({}, lang {})", id, idlang);
+                        }
                         if via_bridge {
                             bridge::create_store(id);
                         } else {
-                            create_store(id, take_lang(lang));
+                            create_store(id, take_lang(idlang));
                         }
-                        model.insert(id, (St::new(lang, DEFAULT_LIMIT, ("[", "]")), vec![]));
+                        model.insert(id, (St::new(idlang, DEFAULT_LIMIT, ("[", "]")), vec![]));
                     }
                 }
                 2 => {
@@ -664,6 +776,15 @@ impl History {
                             2 => cx.rng.pick(&words).chars().take(2).collect(),
                             _ => gen::hostile(&mut cx.rng, 4),
                         };
+                        // the text just sent to another id, sent to this one as well
+                        let q = match &last_q {
+                            Some((lid, lq)) if *lid != id && cx.rng.chance(1, 2) => {
+                                cx.count("searches repeating the text just sent to another id");
+                                lq.clone()
+                            }
+                            _ => q,
+                        };
+                        last_q = Some((id, q.clone()));
                         hist.push(format!("search({},{:?})", id, q));
                         cx.ctx(format!("C20 lang={} history={:?}", lang, hist));
                         if via_bridge {
@@ -745,9 +866,9 @@ impl Prop for History {
     }
     fn floors(&self) -> Vec<(&'static str, u64, u64)> {
         match self.0 {
-            Which::NoCrash => vec![("searches", 20000, 200000), ("searches with hits", 5000, 50000), ("joined-record hits (two spans from a one-word query)", 50, 500), ("non-ASCII queries", 2000, 20000), ("limit 0", 200, 2000), ("limit 65536", 200, 2000), ("histories with boundary-value record ids", 2000, 20000), ("long-text searches", 500, 5000), ("long-text searches with a query over 255 characters", 100, 1000), ("corpus-store searches", 300, 3000), ("long-text cases with a giant word or a 1000+ word title", 20, 200), ("soak searches on one store", 600000, 2500000), ("most searches on one store max ", 66000, 66000), ("soak stores with more than 2^16 records", 2, 8)],
-            Which::NoStale => vec![("search after add following an earlier search", 2000, 20000), ("search after clear following an earlier search", 500, 5000), ("search after limit following an earlier search", 500, 5000), ("empty-query search after a mutation following an earlier search", 1000, 10000), ("exhaustive histories", 20000, 200000), ("histories on a crowded store", 2000, 20000), ("histories that clear and refill a crowded store", 2000, 20000), ("histories growing a store past 64/128/256/512 records with searches in between", 200, 5000), ("histories growing a store past 1024 records with searches in between", 60, 1500), ("soak searches on one store", 1000000, 4000000), ("search repeating the previous query after a mutation", 2000, 20000), ("operations on another store of the same thread inside a history", 3000, 30000)],
-            Which::Registry => vec![("observations", 20000, 200000), ("observations with >= 2 live ids holding results", 2000, 20000), ("destroy", 300, 3000), ("searches", 3000, 30000), ("histories over 4-20 store ids", 1000, 10000), ("bursts of 45-120 records", 300, 3000)],
+            Which::NoCrash => vec![("searches", 20000, 200000), ("searches with hits", 5000, 50000), ("joined-record hits (two spans from a one-word query)", 50, 500), ("non-ASCII queries", 2000, 20000), ("limit 0", 200, 2000), ("limit 65536", 200, 2000), ("histories with boundary-value record ids", 2000, 20000), ("long-text searches", 500, 5000), ("long-text searches with a query over 255 characters", 100, 1000), ("corpus-store searches", 300, 3000), ("long-text cases with a giant word or a 1000+ word title", 20, 200), ("soak searches on one store", 600000, 2500000), ("most searches on one store max ", 66000, 66000), ("soak stores with more than 2^16 records", 2, 8), ("adds re-using the id of an earlier record", 5000, 50000)],
+            Which::NoStale => vec![("search after add following an earlier search", 2000, 20000), ("search after clear following an earlier search", 500, 5000), ("search after limit following an earlier search", 500, 5000), ("empty-query search after a mutation following an earlier search", 1000, 10000), ("exhaustive histories", 20000, 200000), ("histories on a crowded store", 2000, 20000), ("histories that clear and refill a crowded store", 2000, 20000), ("histories growing a store past 64/128/256/512 records with searches in between", 200, 5000), ("histories growing a store past 1024 records with searches in between", 60, 1500), ("soak searches on one store", 1000000, 4000000), ("search repeating the previous query after a mutation", 2000, 20000), ("operations on another store of the same thread inside a history", 3000, 30000), ("registry-driven searches compared with a fresh store", 5000, 50000), ("adds re-using the id of an earlier record", 3000, 30000)],
+            Which::Registry => vec![("observations", 20000, 200000), ("observations with >= 2 live ids holding results", 2000, 20000), ("destroy", 300, 3000), ("searches", 3000, 30000), ("histories over 4-20 store ids", 1000, 10000), ("bursts of 45-120 records", 300, 3000), ("stores created with another language than their neighbours", 3000, 30000), ("searches repeating the text just sent to another id", 2000, 20000)],
         }
     }
     fn run(&self, cx: &mut Cx, stream: &str, idx: u64) {
@@ -825,7 +946,11 @@ impl Prop for History {
                         ops.push(random_op(&mut cx.rng, lang, allow_clear, &mut last_q));
                     }
                 }
-                run_history(cx, lang, &ops, true);
+                if cx.tier != Tier::Miri && cx.rng.chance(1, 6) {
+                    run_history_registry(cx, lang, &ops);
+                } else {
+                    run_history(cx, lang, &ops, true);
+                }
             }
             (Which::NoStale, "exhaustive") => {
                 // case = (language, first two operations); enumerates every continuation up to the bound
